@@ -145,6 +145,9 @@ let replay proto (c0 : cfg) (evs : (int * str) list) : cfg =
     | "Unlock" -> drain where g;
       if held.(g) = 2 && next_kind () = "RUnlock" then step_one where g "RUnlock" else step_one where g "Unlock";
       held.(g) <- 0
+    | "FSd" | "FSu" -> ()
+      (* FSd: making sure a directory exists (idempotent, safe to repeat concurrently); FSu: an operation on an io.Writer /
+         io.Reader PARAMETER, behind which there may or may not be a file. Neither needs the lock to keep the file whole. *)
     | _ ->
       if held.(g) = 0 then raise (Sched_fail (Printf.sprintf "unprotected:%s:kind=%s" where kind)))
     evs;
